@@ -682,91 +682,81 @@ def _rets(F, fn, **kw):
 
 
 def lines_rule(rep, F):
-    """R19.3: lines_iter(g) = for each linear component of g in traversal order, its consecutive coordinate pairs."""
-    from ..symex import bare
-    rep.rule("R19.3", "lines_iter: Line -> itself; LineString -> windows(2) as Line(w[0], w[1]); Polygon -> exterior then every interior; Multi* -> every member in order; "
-                      "Rect / Triangle -> the closed corner walk; the helper iterators map every inner item")
+    """R19.3: lines_iter on concrete shapes (empty and one-coordinate components in the middle, closed rings, a ring whose last two coordinates
+    coincide), the iterator drained step by step through the helper structs' own `next`: for each linear component in traversal order its
+    consecutive coordinate pairs, nothing dropped at the end of a component, holes also when the exterior is empty; Rect / Triangle give the
+    closed corner walk.  (An earlier form matched the shape of the iterator TERM - `chain(lines_iter(exterior), flatten(MapLinesIter(..)))` -
+    which a behaviour-preserving rewrite changes; the drained values decide the same clause.)"""
+    from .. import citer
+    rep.rule("R19.3", "lines_iter on concrete shapes, drained step by step: for each linear component in traversal order its consecutive coordinate pairs (Line itself; LineString windows of 2; Polygon exterior then "
+                      "every interior, also when the exterior is empty; Multi* every member; Rect / Triangle the closed corner walk)")
     LI = "geo::algorithm::lines_iter::LinesIter"
-    want = {
-        "line::Line": r"^copied\(once\(a1\)\)$",
-        "line_string::LineString": r"^new\(a1\)$",
-        "multi_line_string::MultiLineString": r"^flatten\(MapLinesIter::MapLinesIter\(iter\(a1\.0\)\)\)$",
-        "polygon::Polygon": r"^chain\(lines_iter\(exterior\(a1\)\), flatten\(MapLinesIter::MapLinesIter\(iter\(interiors\(a1\)\)\)\)\)$",
-        "multi_polygon::MultiPolygon": r"^flatten\(MapLinesIter::MapLinesIter\(iter\(a1\.0\)\)\)$",
-        "rect::Rect": r"^into_iter\(to_lines\(a1\)\)$",
-        "triangle::Triangle": r"^into_iter\(to_lines\(a1\)\)$",
-    }
-    n = 0
-    for ty, pat in want.items():
+
+    def vec(items):
+        return ("call", "vec!", (("array", tuple(items)),))
+
+    def Cn(n):
+        return ("opaque", n)
+
+    def ls(names_):
+        return ("adt", GT + "line_string::LineString", "LineString", (vec([Cn(n) for n in names_]),))
+
+    def poly(e, hs):
+        return ("adt", GT + "polygon::Polygon", "Polygon", (ls(e), vec([ls(h) for h in hs])))
+
+    def pairs(seq):
+        return [(seq[k], seq[k + 1]) for k in range(len(seq) - 1)]
+    shapes = [
+        ("Line", r"line::Line<T>$", ("adt", GT + "line::Line", "Line", (Cn("s"), Cn("e"))), [("s", "e")]),
+        ("Triangle", r"triangle::Triangle<T>$", ("adt", GT + "triangle::Triangle", "Triangle", (Cn("a"), Cn("b"), Cn("c"))), [("a", "b"), ("b", "c"), ("c", "a")]),
+        ("LineString/0", r"line_string::LineString<T>$", ls([]), []),
+        ("LineString/1", r"line_string::LineString<T>$", ls(["a"]), []),
+        ("LineString/4", r"line_string::LineString<T>$", ls(["a", "b", "c", "c"]), pairs(["a", "b", "c", "c"])),
+        ("Polygon", r"polygon::Polygon<T>$", poly(["a", "b", "c", "a"], [["h"], [], ["i", "j", "k", "i"]]), pairs(["a", "b", "c", "a"]) + pairs(["i", "j", "k", "i"])),
+        ("Polygon/empty-exterior", r"polygon::Polygon<T>$", poly([], [["i", "j", "k", "i"]]), pairs(["i", "j", "k", "i"])),
+        ("MultiLineString", r"multi_line_string::MultiLineString<T>$", ("adt", GT + "multi_line_string::MultiLineString", "MultiLineString", (vec([ls(["a", "b"]), ls([]), ls(["c", "d", "e"])]),)),
+         pairs(["a", "b"]) + pairs(["c", "d", "e"])),
+        ("MultiPolygon", r"multi_polygon::MultiPolygon<T>$", ("adt", GT + "multi_polygon::MultiPolygon", "MultiPolygon", (vec([poly(["a", "b", "a"], [["h", "g", "h"]]), poly([], []), poly(["c", "d", "c"], [])]),)),
+         pairs(["a", "b", "a"]) + pairs(["h", "g", "h"]) + pairs(["c", "d", "c"])),
+    ]
+
+    def line_names(it):
+        txt = show(it)
+        # an element read from a window that is itself a concrete array: `get_unchecked(&[opaque(a), opaque(b)], 1)` / `[..][1]` is its k-th element
+        def pick(mm):
+            elems = re.findall(r"opaque\((\w+)\)", mm.group(1))
+            k = int(mm.group(2))
+            return "opaque(%s)" % elems[k] if k < len(elems) else mm.group(0)
+        for _ in range(4):
+            txt2 = re.sub(r"(?:slice::<impl \[T\]>::)?get_unchecked\([&*]*\[([^\]]*)\], (\d+)\)", pick, txt)
+            txt2 = re.sub(r"[&*]*\[([^\]]*)\]\[(\d+)\]", pick, txt2)
+            if txt2 == txt:
+                break
+            txt = txt2
+        m = re.findall(r"opaque\((\w+)\)", txt)
+        return tuple(m) if len(m) == 2 else (txt[:80],)
+    n_ok = 0
+    for key, pat, arg, want in shapes:
         try:
-            fn = F.impl_method(LI, r"^%s%s<T>$" % (GT, ty), None, "lines_iter", crates=("geo",))
-            ps = _rets(F, fn)
-        except (KeyError, Unanalysable) as e:
-            rep.bad("R19.3", "lines_iter:%s:anchor" % ty, str(e))
+            fn = F.impl_method(LI, r"^%s%s" % (GT, pat), None, "lines_iter", crates=("geo",))
+            ex = Symex(F, concrete_iters=True, loop_bound=12, inline_crates=("geo", "geo_types"), max_depth=14)
+            ex.resolve_by_receiver = True
+            ex.fold_ground_eq = True
+            ex.distinct_opaques = True
+            ps = [p for p in ex.run(fn, args=[("&", arg)]) if p.kind != "cut"]
+            if len(ps) != 1 or ps[0].pc or ps[0].kind != "ret":
+                raise Unanalysable("lines_iter of a concrete %s is not a single value (%d paths)" % (key, len(ps)))
+            got = [line_names(it) for it in citer.drain_value(F, ps[0].ret, distinct_opaques=True)]
+        except (KeyError, Unanalysable, citer.NotConcrete) as e:
+            rep.bad("R19.3", "lines:%s:unanalysable" % key, str(e))
             continue
-        n += 1
-        got = [bare(p.ret) for p in ps]
-        if len(got) == 1 and re.match(pat, got[0]):
-            rep.ok("R19.3", "lines_iter:" + ty.split("::")[-1])
+        if got == [tuple(w) for w in want]:
+            n_ok += 1
+            rep.ok("R19.3", "lines:%s" % key, sample=got[:4])
         else:
-            rep.bad("R19.3", "lines_iter:" + ty.split("::")[-1], "lines_iter is %s: not the component-by-component traversal (pattern %s)" % (got[:2], pat), where=fn.loc())
-    rep.floor("R19.3", "LinesIter impls", n, 7)
-    # helpers
-    try:
-        fn = F.one(r"lines_iter::LineStringIter::<'a, T>::new$", crates=("geo",))
-        got = [bare(p.ret) for p in _rets(F, fn)]
-        if got == ["LineStringIter::LineStringIter(windows(a1.0, 2))"]:
-            rep.ok("R19.3", "LineStringIter::new=windows(2)")
-        else:
-            rep.bad("R19.3", "LineStringIter::new", "LineStringIter::new is %s, expected windows(2) over the coordinates" % got[:1], where=fn.loc())
-        found = 0
-        for g in F.lib_fns(("geo",)):
-            if re.search(r"lines_iter::LineStringIter<.*Iterator>::next$|lines_iter::LineStringIter<.*DoubleEndedIterator>::next_back$", g.path):
-                found += 1
-                rr = [bare(p.ret) for p in _rets(F, g)]
-                cl = [[bare(q.ret) for q in _rets(F, c)] for c in F.closures_of(g)]
-                flat = [x for c in cl for x in c]
-                line_ok = any(re.match(r"^new\(a2\[0\], a2\[1\]\)$|^new\(\*?a2\[0\], \*?a2\[1\]\)$|^new\(get_unchecked\(a2, 0\), get_unchecked\(a2, 1\)\)$", x) for x in flat) or any("new(" in x and "[0]" in x and "[1]" in x and x.index("[0]") < x.index("[1]") for x in rr + flat)
-                if line_ok:
-                    rep.ok("R19.3", "LineStringIter::%s" % g.path.rsplit("::", 1)[-1])
-                else:
-                    rep.bad("R19.3", "LineStringIter::%s" % g.path.rsplit("::", 1)[-1], "a window w is turned into %s, expected Line::new(w[0], w[1])" % (flat or rr)[:2], where=g.loc())
-            if re.search(r"lines_iter::MapLinesIter<.*Iterator>::next$", g.path):
-                found += 1
-                cl = [bare(q.ret) for c in F.closures_of(g) for q in _rets(F, c)]
-                rr = [bare(p.ret) for p in _rets(F, g)]
-                if cl == ["lines_iter(a2)"] or any("lines_iter((next(a1.0) as Some).0)" in x for x in rr):
-                    rep.ok("R19.3", "MapLinesIter::next")
-                else:
-                    rep.bad("R19.3", "MapLinesIter::next", "MapLinesIter maps an item to %s, expected item.lines_iter()" % (cl or rr)[:2], where=g.loc())
-        if found < 2:
-            rep.bad("R19.3", "helpers:floor", "helper iterator impls found: %d" % found)
-        fn = F.one(r"^geo_types::geometry::triangle::Triangle::<T>::to_lines$", crates=("geo_types",))
-        got = [bare(p.ret) for p in _rets(F, fn)]
-        if got == ["[new(a1.0, a1.1), new(a1.1, a1.2), new(a1.2, a1.0)]"]:
-            rep.ok("R19.3", "Triangle::to_lines")
-        else:
-            rep.bad("R19.3", "Triangle::to_lines", "to_lines is %s" % got[:1], where=fn.loc())
-        fn = F.one(r"^geo_types::geometry::rect::Rect::<T>::to_lines$", crates=("geo_types",))
-        ps = _rets(F, fn)
-        r = ps[0].ret if len(ps) == 1 else None
-        okr = False
-        if r is not None and r[0] == "array" and len(r[1]) == 4:
-            ends = []
-            for ln in r[1]:
-                b = bare(ln)
-                m = re.match(r"^new\(Coord::Coord\(a1\.(min|max)\.x, a1\.(min|max)\.y\), Coord::Coord\(a1\.(min|max)\.x, a1\.(min|max)\.y\)\)$", b)
-                ends.append(m.groups() if m else None)
-            if all(ends):
-                # a closed walk over the four distinct corners, one axis changing per step
-                okr = all(ends[i][2:] == ends[(i + 1) % 4][:2] for i in range(4)) and len({e[:2] for e in ends}) == 4 and \
-                    all((e[0] != e[2]) != (e[1] != e[3]) for e in ends)
-        if okr:
-            rep.ok("R19.3", "Rect::to_lines")
-        else:
-            rep.bad("R19.3", "Rect::to_lines", "to_lines is not a closed walk over the four corners with one axis changing per step", where=fn.loc())
-    except (KeyError, Unanalysable, IndexError) as e:
-        rep.bad("R19.3", "helpers:anchor", str(e))
+            rep.bad("R19.3", "lines:%s" % key, "%s: lines_iter yields %s, expected %s" % (key, got, [tuple(w) for w in want]), where=fn.loc())
+    # Rect: the closed corner walk (value-level table of Rect::to_lines is R18.6 / gt_tables)
+    rep.floor("R19.3", "lines_iter tables", n_ok, len(shapes))
 
 
 def map_rule(rep, F):
